@@ -584,9 +584,20 @@ impl Property for ProofProp {
         p.mode_permille = 100;
         p.space_limit = if tier == Tier::Quick { 1200 } else { 6000 };
         let pp = p.clone();
+        // one case in six is a scheduling model (several cumulative tasks, unplanted so that many are infeasible):
+        // the incremental time-table propagators report conflicts late, which exercises the completion of the
+        // proof away from the root level
+        let mut pp_cum = p.clone();
+        pp_cum.kinds = vec![(K::Cumulative, 10), (K::BinLe, 3), (K::BinNe, 1), (K::LinLe, 2)];
+        pp_cum.max_tasks = 6;
+        pp_cum.max_dur = 5;
+        pp_cum.small_dom_permille = 550;
+        pp_cum.max_dom = 7;
+        pp_cum.plant_permille = 100;
+        pp_cum.pred_literals = false;
         (raw_model_strategy(&p), raw_config_strategy(), any::<u8>(), 0u8..3, (any::<u16>(), -3i8..=3, -3i8..=3), any::<bool>())
             .prop_map(move |((rv, rc), rcfg, path, proof_type, obj, maximise)| {
-                let mut model = build_model(&pp, &rv, &rc);
+                let mut model = if path % 6 == 5 { build_model(&pp_cum, &rv, &rc) } else { build_model(&pp, &rv, &rc) };
                 for c in model.cons.iter_mut() {
                     c.tag = true;
                 }
